@@ -1,6 +1,8 @@
 """C20 - evaluation counters and callbacks are exact."""
 from __future__ import annotations
 
+import contextlib
+
 import numpy as np
 
 from . import spans
@@ -40,7 +42,62 @@ def instances(tier):
     out.append(dict(id="callback-dt-sympl_euler-N2", family="sympl_euler", N=2, mode="cbdt", budget=b))
     out.append(dict(id="fault-reset-euler-N2", family="euler", N=2, mode="fault", budget=b))
     out.append(dict(id="fd-jacobian-backward_euler-N1", family="backward_euler", N=1, mode="fd", budget=b))
+    # two systems built on ONE rhs callable, used alternately: each system's counters count its own requests only
+    for fam in ("euler", "backward_euler"):
+        out.append(dict(id="two-systems-one-rhs-%s-N1" % fam, family=fam, N=1, mode="two_systems", budget=b))
     return out
+
+
+def _two_systems(c, inst, t0, tf, dt0, kind, shape, cap):
+    from .common import FreshRhsWithJac
+    owner = ["A"]
+    cnt = dict(A=[0, 0], B=[0, 0])
+
+    class Shared(FreshRhsWithJac):
+        def __call__(self, t, y, **kw):
+            v = super().__call__(t, y, **kw)
+            cnt[owner[0]][0] += 1
+            return v
+
+        def jac(self, t, y, **kw):
+            v = super().jac(t, y, **kw)
+            cnt[owner[0]][1] += 1
+            return v
+    rhs = Shared(c, shape)
+    if kind != "implicit":
+        rhs.jac = None          # plain callable without a Jacobian
+        del rhs.jac
+    sysd = {}
+
+    def counters(tag):
+        for w in ("A", "B"):
+            if w in sysd:
+                c.check("c20.two.nfev_counts_own_calls_only", sysd[w].nfev == cnt[w][0], info=dict(at=tag, system=w, nfev=sysd[w].nfev, counted=cnt[w][0]))
+                if kind == "implicit":
+                    c.check("c20.two.njev_counts_own_requests_only", sysd[w].njev == cnt[w][1], info=dict(at=tag, system=w, njev=sysd[w].njev, counted=cnt[w][1]))
+    T1 = t0 + 0.5 * (tf - t0)          # the first leg of A stops half-way
+    import desolver.utilities.optimizer as opt
+    from .common import verdict_root_stub
+    with (patched(opt, "nonlinear_roots", verdict_root_stub(c, success="true")) if kind == "implicit" else contextlib.nullcontext()):
+        for step_ in ("build A", "A to T1", "build B", "B to tf", "A to tf"):
+            w = step_[-1] if step_.startswith("build") else step_[0]
+            owner[0] = w
+            if step_.startswith("build"):
+                st, built = run(spans.build_system, c, inst, t0, tf, dt0, False, rhs)
+                if st != "ok":
+                    c.check("c20.constructs", False, info=repr(built))
+                    return
+                sysd[w] = built[0]
+                if kind == "implicit":
+                    from .common import ctrl_stub
+                    built[0].integrator.update_timestep = ctrl_stub(c, built[0].integrator, fixed=1.0)     # counters do not depend on the controller
+            else:
+                target = T1 if step_.endswith("T1") else None
+                cb = [spans.cap_callback(c, cap + 2, kind)]
+                st, r = run(sysd[w].integrate, target, callback=cb) if target is not None else run(sysd[w].integrate, callback=cb)
+                if st != "ok":
+                    return
+            counters(step_)
 
 
 def scenario(c, inst):
@@ -51,6 +108,8 @@ def scenario(c, inst):
     mode = inst["mode"]
     cap = inst["N"] + 3
     rhs = None
+    if mode == "two_systems":
+        return _two_systems(c, inst, t0, tf, dt0, kind, shape, cap)
     if mode == "fd":
         # affine rhs with concrete coefficients, symbolic state: the real JacobianWrapper differentiates it
         class Affine:
